@@ -18,7 +18,7 @@ RULE = ('T: every grammar sentence up to the length bound, leaves labelled '
         'assignments (each leaf has its own truth variable realised through '
         'credentials/target/reply); L: every list-of-lists shape up to the '
         'size bound printed and re-parsed; R: every rule set of <=n rules '
-        'from a 10-entry menu (with the always-allow spellings "", [], @): '
+        'from a 12-entry menu (with the always-allow spellings "", [], @): '
         'Rules.load(str(rules)) has equal printed forms and decisions; I: '
         'over the whole enumerated set, rules with equal printed form have '
         'equal decision vectors, and RuleDefault equality <=> equal name and '
@@ -143,6 +143,23 @@ class Ctx:
             acc.violation('%s|raises-at-enforce' % space,
                           'enforcing %r raised' % (value,), {'rule': value},
                           'decision', v1, space)
+        # the whole-rule-set route: str(Rules) -> Rules.load
+        try:
+            src = dict(extra)
+            src['p'] = value
+            rs = self.P.Rules.from_dict(src)
+            back = self.P.Rules.load(str(rs))
+            if {k: str(v) for k, v in back.items()} != \
+                    {k: str(v) for k, v in rs.items()}:
+                acc.violation('%s|ruleset-dump|%s' % (space, _shape(p)),
+                              'Rules.load(str(Rules)) changes %r into %r' %
+                              (p, str(back.get('p'))), {'rule': value}, p,
+                              str(back.get('p')), space)
+        except Exception as e:
+            acc.violation('%s|ruleset-dump-raises' % space,
+                          'dump/load of a rule set with %r raised %r' %
+                          (value, e), {'rule': value}, 'loads', repr(e),
+                          space)
         self.inj.append([_h(p + '|' + ','.join(kinds)), _h(repr(v1))])
         acc.outcome('true-%d-of-%d' % (sum(1 for x in v1 if x[1] is True),
                                        len(v1)))
@@ -218,7 +235,9 @@ def run_L(cx, job):
 
 MENU = ['', [], '@', '!', 'role:r0', 'role:r0 and rule:q1', 'not role:r1',
         [['role:r0'], ['role:r1', 'role:r2']], "'yes':%(t2)s",
-        'role:r0 or role:r1 and not g3.v:yes']
+        'role:r0 or role:r1 and not g3.v:yes',
+        '(role:r0 and role:r1) or (role:r2 and @)',
+        '(role:r0 or role:r1) and not (role:r2 or !)']
 MENU_KINDS = ('role', 'role', 'role', 'path')
 
 
